@@ -27,10 +27,20 @@ def flip(data, pos, bit):
     return bytes(b)
 
 
-def alter(block, kind, rng):
+def alter(block, kind, rng, below=None):
+    """below: bytes stored at the height below (for kind "chain")"""
     raw = block['raw']
     if kind == 'none':
         return raw, None
+    if kind == 'nonce':
+        # time / bits / nonce: covered by no check of --verify (the block merely stops hashing to its indexed hash)
+        pos, bit = rng.randrange(68, 80), rng.randrange(8)
+        return flip(raw, pos, bit), (pos, bit)
+    if kind == 'chain':
+        prev = btc.sha256d(below[:80]) if below is not None else b'\0' * 32
+        fb = datadir.mk_block(prev, [btc.coinbase(9, btc.p2pkh(rng.randbytes(20)), extra=rng.randbytes(4))], nonce=rng.randrange(1 << 32))
+        return fb['raw'], 'chain'
+
     if kind == 'tx':
         lo, hi = tx_region(block)
         pos, bit = rng.randrange(lo, hi), rng.randrange(8)
@@ -122,7 +132,7 @@ def main(ck, tier, w):
         blocks, _ = mk_chain(obs['T'] + 1, coin, rng, ntx_fn=lambda h: rng.choice([1, 2, 3, 5]))
         stored, how = [], []
         for h, k in enumerate(obs['kinds']):
-            raw, what = alter(blocks[h], k, rng)
+            raw, what = alter(blocks[h], k, rng, stored[h - 1] if h else None)
             stored.append(raw)
             how.append(what)
         d = write_dir(w, blocks, coin, stored)
